@@ -45,7 +45,8 @@ def label(p):
 class Cfg:
     """One configuration: layer, protocols used by the smoke code, protocols enabled in the library."""
 
-    def __init__(self, layer, use, dep=None, special=None):
+    def __init__(self, layer, use, dep=None, special=None, profile="dev"):
+        self.profile = profile  # "dev" | "release" (cargo --release: no debug assertions, optimised)
         self.layer = layer
         self.use = tuple(sorted(use, key=PROTOS.index))
         self.dep = tuple(sorted(dep if dep is not None else use, key=PROTOS.index))
@@ -69,16 +70,19 @@ class Cfg:
         return sorted("OK %s %s" % (label(p), t) for p in self.use for t in LAYER_TAGS[self.layer])
 
     def key(self):
-        return (self.special or self.layer, self.use, self.dep)
+        return (self.special or self.layer, self.use, self.dep) + ((self.profile,) if self.profile != "dev" else ())
 
     def to_json(self):
-        return {"layer": self.layer, "use": list(self.use), "dep": list(self.dep), "special": self.special}
+        return {"layer": self.layer, "use": list(self.use), "dep": list(self.dep), "special": self.special, "profile": self.profile}
 
     @staticmethod
     def from_json(j):
-        return Cfg(j["layer"], j["use"], j["dep"], j.get("special"))
+        return Cfg(j["layer"], j["use"], j["dep"], j.get("special"), j.get("profile", "dev"))
 
     def __repr__(self):
+        if self.profile != "dev":
+            base = Cfg(self.layer, self.use, self.dep, self.special)
+            return "%s --%s" % (repr(base), self.profile)
         if self.special == "default+":
             return "<default + %s>" % ",".join(self.dep)
         if self.special:
@@ -110,6 +114,8 @@ class Worker:
         feats = cfg.features()
         if feats:
             cmd += ["--features", " ".join(feats)]
+        if cfg.profile == "release":
+            cmd += ["--release"]
         try:
             p = subprocess.run(cmd, env=env, stdout=subprocess.PIPE, stderr=subprocess.PIPE, timeout=timeout, text=True, errors="replace")
             return p.returncode, p.stdout, p.stderr, " ".join(cmd)
@@ -130,6 +136,8 @@ class Worker:
         cmd = ["cargo", "check", "-q", "--offline", "--lib", "--manifest-path", os.path.join(self.smoke, "Cargo.toml"), "-p", "rusty_paseto", "--no-default-features"]
         if feats:
             cmd += ["--features", " ".join("rusty_paseto/" + f for f in feats)]
+        if cfg.profile == "release":
+            cmd += ["--release"]
         p = subprocess.run(cmd, env=env, stdout=subprocess.PIPE, stderr=subprocess.PIPE, text=True, errors="replace")
         return p.returncode, p.stderr
 
@@ -206,6 +214,15 @@ def enumerate_jobs(tier, seed):
         jobs.append(("run" if tier == "thorough" or p in ("v1_public", "v3_local") else "check", Cfg("batteries_included", ("v4_local", "v4_public"), (p,), special="default+"), "default-plus"))
     jobs.append(("run", Cfg("batteries_included", ("v4_local", "v4_public"), full, special="default+"), "default-plus"))
     jobs.append(("run", Cfg("core", (), special="none"), "config"))
+    # the other build profile (cargo --release: cfg(debug_assertions) off, optimised): code may exist in only one of the two
+    for p in PROTOS:
+        jobs.append(("check" if tier == "quick" else "run", Cfg("core", (p,), profile="release"), "release-profile"))
+    jobs.append(("check" if tier == "quick" else "run", Cfg("batteries_included", full, profile="release"), "release-profile"))
+    jobs.append(("check", Cfg("batteries_included", (), special="default", profile="release"), "release-profile"))
+    if tier == "thorough":
+        for layer in ("generic", "batteries_included"):
+            for p in PROTOS:
+                jobs.append(("check", Cfg(layer, (p,), profile="release"), "release-profile"))
     # monotonicity: code written for S, library built with S' (superset)
     mono = []
     if tier == "quick":
@@ -267,7 +284,7 @@ def shrink(worker, kind, cfg, fp):
 
     cur = cfg
     # a failure inside the library does not depend on the client code: drop it first
-    cand = Cfg(cur.layer, (), cur.dep)
+    cand = Cfg(cur.layer, (), cur.dep, profile=cur.profile)
     if cur.use and fails(cand):
         cur = cand
     changed = True
@@ -278,7 +295,7 @@ def shrink(worker, kind, cfg, fp):
             use = tuple(x for x in cur.use if x != p)
             if not dep:
                 continue
-            cand = Cfg(cur.layer, use, dep)
+            cand = Cfg(cur.layer, use, dep, profile=cur.profile)
             if fails(cand):
                 cur = cand
                 changed = True
@@ -286,7 +303,7 @@ def shrink(worker, kind, cfg, fp):
     for layer in LAYERS:
         if LAYERS.index(layer) >= LAYERS.index(cur.layer):
             break
-        cand = Cfg(layer, cur.use, cur.dep)
+        cand = Cfg(layer, cur.use, cur.dep, profile=cur.profile)
         if fails(cand):
             cur = cand
             break
@@ -297,6 +314,8 @@ def explains(small, cfg):
     """True if cfg contains the minimal failing configuration `small`."""
     if small.special or cfg.special:
         return small.key() == cfg.key()
+    if small.profile != cfg.profile:
+        return False
     return set(small.dep) <= set(cfg.dep) and set(small.use) <= set(cfg.use) and LAYERS.index(small.layer) <= LAYERS.index(cfg.layer)
 
 
